@@ -44,6 +44,7 @@ CONSTANTS Cases,           \* set of cases explored by the model
           DevF13,          \* deviation (finding F13, repaired): residue attributes missing on the atoms of the first residue
           DevVerKey,       \* deviation (finding F17, repaired): WriteBack also drops every interaction whose VERSION number equals the node key of a removed atom
           DevDangEnd,      \* deviation: a dangling interaction is also expected in windows that stick out of the chain end
+          DevLastOfName,   \* deviation (independent seed4-C02-1): a link atom with one plain atom name is looked up in a name -> atom table that keeps only the LAST atom of a repeated name
           DevNoAtomResname,\* deviation (independent seed C02-2): the residue name is not compared when the atoms of a link are looked up
           DevOrderedPairs, \* deviation (independent seed C10-2): joined residue pairs are collected and looked up as ORDERED pairs
           DevGateOnce,     \* deviation (independent seed2-C10-1): the gate skips molecules whose (always empty) graph name was already seen
@@ -335,7 +336,10 @@ Windows(b, L) ==
 \* GraphMatcher(meta_molecule, res_link, node_match=_res_match, edge_match=_linktype_match).subgraph_isomorphisms_iter()
 GMMatches(c, l) == ResMatches(c, l, DevMono, DevNoLinktype)
 DropKey(f, k) == [x \in (DOMAIN f) \ {k} |-> f[x]]
-ISelSet(c, l, phi, a) == IF DevNoAtomResname
+LastOfName(c, r, nm) == { i \in 1..NAt(c, r) : MolAttr0(c, <<r, i>>).atomname = nm /\ \A j \in (i + 1)..NAt(c, r) : MolAttr0(c, <<r, j>>).atomname # nm }
+ISelSet(c, l, phi, a) == IF DevLastOfName /\ "atomname" \in DOMAIN l.atoms[a].sel /\ Len(l.atoms[a].sel.atomname) = 1
+   THEN LET r == phi[l.atoms[a].oi] IN { i \in LastOfName(c, r, l.atoms[a].sel.atomname[1]) : SelOK(FragAttr(c, <<r, i>>), l.atoms[a].sel) }
+   ELSE IF DevNoAtomResname
    THEN LET r == phi[l.atoms[a].oi] IN { i \in 1..NAt(c, r) : SelOK(FragAttr(c, <<r, i>>), DropKey(l.atoms[a].sel, "resname")) }
    ELSE SelSetW(c, l, phi, a, DevF13)
 IMin(S) == CHOOSE i \in S : \A j \in S : i <= j
